@@ -267,55 +267,58 @@ package main
 //@   ensures [trusted.MQConfigFile] opts.MQConfigFile == (envHas("mq-config-file") ? envS("mq-config-file") : old(opts.MQConfigFile))
 //@   modifies opts
 
-// loadCfg: a key present in the configuration file replaces the current value (yaml.Unmarshal: trusted)
+// loadCfg: a key present in the configuration file replaces the current value, every other setting keeps its value
+// (proved from the assumed meaning of yaml.Unmarshal into Options; an unreadable file has no keys)
 //@ func (*Options).loadCfg
 //@   names opts file i flag b err
-//@   opt noverify yaml.Unmarshal into the struct
-//@   ensures [trusted.Verbose] opts.Verbose == (fileHas("verbose") ? fileB("verbose") : old(opts.Verbose))
-//@   ensures [trusted.LogFile] opts.LogFile == (fileHas("log-file") ? fileS("log-file") : old(opts.LogFile))
-//@   ensures [trusted.PIDFile] opts.PIDFile == (fileHas("pid-file") ? fileS("pid-file") : old(opts.PIDFile))
-//@   ensures [trusted.CPUCap] opts.CPUCap == (fileHas("cpu-cap") ? fileS("cpu-cap") : old(opts.CPUCap))
-//@   ensures [trusted.DynWorkers] opts.DynWorkers == (fileHas("dynamic-workers") ? fileB("dynamic-workers") : old(opts.DynWorkers))
-//@   ensures [trusted.StatsEnabled] opts.StatsEnabled == (fileHas("stats-enabled") ? fileB("stats-enabled") : old(opts.StatsEnabled))
-//@   ensures [trusted.StatsFormat] opts.StatsFormat == (fileHas("stats-format") ? fileS("stats-format") : old(opts.StatsFormat))
-//@   ensures [trusted.StatsHTTPAddr] opts.StatsHTTPAddr == (fileHas("stats-http-addr") ? fileS("stats-http-addr") : old(opts.StatsHTTPAddr))
-//@   ensures [trusted.StatsHTTPPort] opts.StatsHTTPPort == (fileHas("stats-http-port") ? fileS("stats-http-port") : old(opts.StatsHTTPPort))
-//@   ensures [trusted.SFlowEnabled] opts.SFlowEnabled == (fileHas("sflow-enabled") ? fileB("sflow-enabled") : old(opts.SFlowEnabled))
-//@   ensures [trusted.SFlowPort] opts.SFlowPort == (fileHas("sflow-port") ? fileI("sflow-port") : old(opts.SFlowPort))
-//@   ensures [trusted.SFlowAddr] opts.SFlowAddr == (fileHas("sflow-addr") ? fileS("sflow-addr") : old(opts.SFlowAddr))
-//@   ensures [trusted.SFlowUDPSize] opts.SFlowUDPSize == (fileHas("sflow-udp-size") ? fileI("sflow-udp-size") : old(opts.SFlowUDPSize))
-//@   ensures [trusted.SFlowWorkers] opts.SFlowWorkers == (fileHas("sflow-workers") ? fileI("sflow-workers") : old(opts.SFlowWorkers))
-//@   ensures [trusted.SFlowTopic] opts.SFlowTopic == (fileHas("sflow-topic") ? fileS("sflow-topic") : old(opts.SFlowTopic))
-//@   ensures [trusted.SFlowMirrorAddr] opts.SFlowMirrorAddr == (fileHas("sflow-mirror-addr") ? fileS("sflow-mirror-addr") : old(opts.SFlowMirrorAddr))
-//@   ensures [trusted.SFlowMirrorPort] opts.SFlowMirrorPort == (fileHas("sflow-mirror-port") ? fileI("sflow-mirror-port") : old(opts.SFlowMirrorPort))
-//@   ensures [trusted.SFlowMirrorWorkers] opts.SFlowMirrorWorkers == (fileHas("sflow-mirror-workers") ? fileI("sflow-mirror-workers") : old(opts.SFlowMirrorWorkers))
-//@   ensures [trusted.IPFIXEnabled] opts.IPFIXEnabled == (fileHas("ipfix-enabled") ? fileB("ipfix-enabled") : old(opts.IPFIXEnabled))
-//@   ensures [trusted.IPFIXRPCEnabled] opts.IPFIXRPCEnabled == (fileHas("ipfix-rpc-enabled") ? fileB("ipfix-rpc-enabled") : old(opts.IPFIXRPCEnabled))
-//@   ensures [trusted.IPFIXPort] opts.IPFIXPort == (fileHas("ipfix-port") ? fileI("ipfix-port") : old(opts.IPFIXPort))
-//@   ensures [trusted.IPFIXAddr] opts.IPFIXAddr == (fileHas("ipfix-addr") ? fileS("ipfix-addr") : old(opts.IPFIXAddr))
-//@   ensures [trusted.IPFIXUDPSize] opts.IPFIXUDPSize == (fileHas("ipfix-udp-size") ? fileI("ipfix-udp-size") : old(opts.IPFIXUDPSize))
-//@   ensures [trusted.IPFIXWorkers] opts.IPFIXWorkers == (fileHas("ipfix-workers") ? fileI("ipfix-workers") : old(opts.IPFIXWorkers))
-//@   ensures [trusted.IPFIXTopic] opts.IPFIXTopic == (fileHas("ipfix-topic") ? fileS("ipfix-topic") : old(opts.IPFIXTopic))
-//@   ensures [trusted.IPFIXMirrorAddr] opts.IPFIXMirrorAddr == (fileHas("ipfix-mirror-addr") ? fileS("ipfix-mirror-addr") : old(opts.IPFIXMirrorAddr))
-//@   ensures [trusted.IPFIXMirrorPort] opts.IPFIXMirrorPort == (fileHas("ipfix-mirror-port") ? fileI("ipfix-mirror-port") : old(opts.IPFIXMirrorPort))
-//@   ensures [trusted.IPFIXMirrorWorkers] opts.IPFIXMirrorWorkers == (fileHas("ipfix-mirror-workers") ? fileI("ipfix-mirror-workers") : old(opts.IPFIXMirrorWorkers))
-//@   ensures [trusted.IPFIXTplCacheFile] opts.IPFIXTplCacheFile == (fileHas("ipfix-tpl-cache-file") ? fileS("ipfix-tpl-cache-file") : old(opts.IPFIXTplCacheFile))
-//@   ensures [trusted.NetflowV5Enabled] opts.NetflowV5Enabled == (fileHas("netflow5-enabled") ? fileB("netflow5-enabled") : old(opts.NetflowV5Enabled))
-//@   ensures [trusted.NetflowV5Port] opts.NetflowV5Port == (fileHas("netflow5-port") ? fileI("netflow5-port") : old(opts.NetflowV5Port))
-//@   ensures [trusted.NetflowV5Addr] opts.NetflowV5Addr == (fileHas("netflow5-addr") ? fileS("netflow5-addr") : old(opts.NetflowV5Addr))
-//@   ensures [trusted.NetflowV5UDPSize] opts.NetflowV5UDPSize == (fileHas("netflow5-udp-size") ? fileI("netflow5-udp-size") : old(opts.NetflowV5UDPSize))
-//@   ensures [trusted.NetflowV5Workers] opts.NetflowV5Workers == (fileHas("netflow5-workers") ? fileI("netflow5-workers") : old(opts.NetflowV5Workers))
-//@   ensures [trusted.NetflowV5Topic] opts.NetflowV5Topic == (fileHas("netflow5-topic") ? fileS("netflow5-topic") : old(opts.NetflowV5Topic))
-//@   ensures [trusted.NetflowV9Enabled] opts.NetflowV9Enabled == (fileHas("netflow9-enabled") ? fileB("netflow9-enabled") : old(opts.NetflowV9Enabled))
-//@   ensures [trusted.NetflowV9Port] opts.NetflowV9Port == (fileHas("netflow9-port") ? fileI("netflow9-port") : old(opts.NetflowV9Port))
-//@   ensures [trusted.NetflowV9Addr] opts.NetflowV9Addr == (fileHas("netflow9-addr") ? fileS("netflow9-addr") : old(opts.NetflowV9Addr))
-//@   ensures [trusted.NetflowV9UDPSize] opts.NetflowV9UDPSize == (fileHas("netflow9-udp-size") ? fileI("netflow9-udp-size") : old(opts.NetflowV9UDPSize))
-//@   ensures [trusted.NetflowV9Workers] opts.NetflowV9Workers == (fileHas("netflow9-workers") ? fileI("netflow9-workers") : old(opts.NetflowV9Workers))
-//@   ensures [trusted.NetflowV9Topic] opts.NetflowV9Topic == (fileHas("netflow9-topic") ? fileS("netflow9-topic") : old(opts.NetflowV9Topic))
-//@   ensures [trusted.NetflowV9TplCacheFile] opts.NetflowV9TplCacheFile == (fileHas("netflow9-tpl-cache-file") ? fileS("netflow9-tpl-cache-file") : old(opts.NetflowV9TplCacheFile))
-//@   ensures [trusted.ProducerEnabled] opts.ProducerEnabled == (fileHas("producer-enabled") ? fileB("producer-enabled") : old(opts.ProducerEnabled))
-//@   ensures [trusted.MQName] opts.MQName == (fileHas("mq-name") ? fileS("mq-name") : old(opts.MQName))
-//@   ensures [trusted.MQConfigFile] opts.MQConfigFile == (fileHas("mq-config-file") ? fileS("mq-config-file") : old(opts.MQConfigFile))
+//@   requires opts != nil
+//@   opt filesource ReadFile
+//@   opt noreplay loadCfg reads the file system and os.Args
+//@   ensures [file.Verbose] opts.Verbose == (fileHas("verbose") ? fileB("verbose") : old(opts.Verbose))
+//@   ensures [file.LogFile] opts.LogFile == (fileHas("log-file") ? fileS("log-file") : old(opts.LogFile))
+//@   ensures [file.PIDFile] opts.PIDFile == (fileHas("pid-file") ? fileS("pid-file") : old(opts.PIDFile))
+//@   ensures [file.CPUCap] opts.CPUCap == (fileHas("cpu-cap") ? fileS("cpu-cap") : old(opts.CPUCap))
+//@   ensures [file.DynWorkers] opts.DynWorkers == (fileHas("dynamic-workers") ? fileB("dynamic-workers") : old(opts.DynWorkers))
+//@   ensures [file.StatsEnabled] opts.StatsEnabled == (fileHas("stats-enabled") ? fileB("stats-enabled") : old(opts.StatsEnabled))
+//@   ensures [file.StatsFormat] opts.StatsFormat == (fileHas("stats-format") ? fileS("stats-format") : old(opts.StatsFormat))
+//@   ensures [file.StatsHTTPAddr] opts.StatsHTTPAddr == (fileHas("stats-http-addr") ? fileS("stats-http-addr") : old(opts.StatsHTTPAddr))
+//@   ensures [file.StatsHTTPPort] opts.StatsHTTPPort == (fileHas("stats-http-port") ? fileS("stats-http-port") : old(opts.StatsHTTPPort))
+//@   ensures [file.SFlowEnabled] opts.SFlowEnabled == (fileHas("sflow-enabled") ? fileB("sflow-enabled") : old(opts.SFlowEnabled))
+//@   ensures [file.SFlowPort] opts.SFlowPort == (fileHas("sflow-port") ? fileI("sflow-port") : old(opts.SFlowPort))
+//@   ensures [file.SFlowAddr] opts.SFlowAddr == (fileHas("sflow-addr") ? fileS("sflow-addr") : old(opts.SFlowAddr))
+//@   ensures [file.SFlowUDPSize] opts.SFlowUDPSize == (fileHas("sflow-udp-size") ? fileI("sflow-udp-size") : old(opts.SFlowUDPSize))
+//@   ensures [file.SFlowWorkers] opts.SFlowWorkers == (fileHas("sflow-workers") ? fileI("sflow-workers") : old(opts.SFlowWorkers))
+//@   ensures [file.SFlowTopic] opts.SFlowTopic == (fileHas("sflow-topic") ? fileS("sflow-topic") : old(opts.SFlowTopic))
+//@   ensures [file.SFlowMirrorAddr] opts.SFlowMirrorAddr == (fileHas("sflow-mirror-addr") ? fileS("sflow-mirror-addr") : old(opts.SFlowMirrorAddr))
+//@   ensures [file.SFlowMirrorPort] opts.SFlowMirrorPort == (fileHas("sflow-mirror-port") ? fileI("sflow-mirror-port") : old(opts.SFlowMirrorPort))
+//@   ensures [file.SFlowMirrorWorkers] opts.SFlowMirrorWorkers == (fileHas("sflow-mirror-workers") ? fileI("sflow-mirror-workers") : old(opts.SFlowMirrorWorkers))
+//@   ensures [file.IPFIXEnabled] opts.IPFIXEnabled == (fileHas("ipfix-enabled") ? fileB("ipfix-enabled") : old(opts.IPFIXEnabled))
+//@   ensures [file.IPFIXRPCEnabled] opts.IPFIXRPCEnabled == (fileHas("ipfix-rpc-enabled") ? fileB("ipfix-rpc-enabled") : old(opts.IPFIXRPCEnabled))
+//@   ensures [file.IPFIXPort] opts.IPFIXPort == (fileHas("ipfix-port") ? fileI("ipfix-port") : old(opts.IPFIXPort))
+//@   ensures [file.IPFIXAddr] opts.IPFIXAddr == (fileHas("ipfix-addr") ? fileS("ipfix-addr") : old(opts.IPFIXAddr))
+//@   ensures [file.IPFIXUDPSize] opts.IPFIXUDPSize == (fileHas("ipfix-udp-size") ? fileI("ipfix-udp-size") : old(opts.IPFIXUDPSize))
+//@   ensures [file.IPFIXWorkers] opts.IPFIXWorkers == (fileHas("ipfix-workers") ? fileI("ipfix-workers") : old(opts.IPFIXWorkers))
+//@   ensures [file.IPFIXTopic] opts.IPFIXTopic == (fileHas("ipfix-topic") ? fileS("ipfix-topic") : old(opts.IPFIXTopic))
+//@   ensures [file.IPFIXMirrorAddr] opts.IPFIXMirrorAddr == (fileHas("ipfix-mirror-addr") ? fileS("ipfix-mirror-addr") : old(opts.IPFIXMirrorAddr))
+//@   ensures [file.IPFIXMirrorPort] opts.IPFIXMirrorPort == (fileHas("ipfix-mirror-port") ? fileI("ipfix-mirror-port") : old(opts.IPFIXMirrorPort))
+//@   ensures [file.IPFIXMirrorWorkers] opts.IPFIXMirrorWorkers == (fileHas("ipfix-mirror-workers") ? fileI("ipfix-mirror-workers") : old(opts.IPFIXMirrorWorkers))
+//@   ensures [file.IPFIXTplCacheFile] opts.IPFIXTplCacheFile == (fileHas("ipfix-tpl-cache-file") ? fileS("ipfix-tpl-cache-file") : old(opts.IPFIXTplCacheFile))
+//@   ensures [file.NetflowV5Enabled] opts.NetflowV5Enabled == (fileHas("netflow5-enabled") ? fileB("netflow5-enabled") : old(opts.NetflowV5Enabled))
+//@   ensures [file.NetflowV5Port] opts.NetflowV5Port == (fileHas("netflow5-port") ? fileI("netflow5-port") : old(opts.NetflowV5Port))
+//@   ensures [file.NetflowV5Addr] opts.NetflowV5Addr == (fileHas("netflow5-addr") ? fileS("netflow5-addr") : old(opts.NetflowV5Addr))
+//@   ensures [file.NetflowV5UDPSize] opts.NetflowV5UDPSize == (fileHas("netflow5-udp-size") ? fileI("netflow5-udp-size") : old(opts.NetflowV5UDPSize))
+//@   ensures [file.NetflowV5Workers] opts.NetflowV5Workers == (fileHas("netflow5-workers") ? fileI("netflow5-workers") : old(opts.NetflowV5Workers))
+//@   ensures [file.NetflowV5Topic] opts.NetflowV5Topic == (fileHas("netflow5-topic") ? fileS("netflow5-topic") : old(opts.NetflowV5Topic))
+//@   ensures [file.NetflowV9Enabled] opts.NetflowV9Enabled == (fileHas("netflow9-enabled") ? fileB("netflow9-enabled") : old(opts.NetflowV9Enabled))
+//@   ensures [file.NetflowV9Port] opts.NetflowV9Port == (fileHas("netflow9-port") ? fileI("netflow9-port") : old(opts.NetflowV9Port))
+//@   ensures [file.NetflowV9Addr] opts.NetflowV9Addr == (fileHas("netflow9-addr") ? fileS("netflow9-addr") : old(opts.NetflowV9Addr))
+//@   ensures [file.NetflowV9UDPSize] opts.NetflowV9UDPSize == (fileHas("netflow9-udp-size") ? fileI("netflow9-udp-size") : old(opts.NetflowV9UDPSize))
+//@   ensures [file.NetflowV9Workers] opts.NetflowV9Workers == (fileHas("netflow9-workers") ? fileI("netflow9-workers") : old(opts.NetflowV9Workers))
+//@   ensures [file.NetflowV9Topic] opts.NetflowV9Topic == (fileHas("netflow9-topic") ? fileS("netflow9-topic") : old(opts.NetflowV9Topic))
+//@   ensures [file.NetflowV9TplCacheFile] opts.NetflowV9TplCacheFile == (fileHas("netflow9-tpl-cache-file") ? fileS("netflow9-tpl-cache-file") : old(opts.NetflowV9TplCacheFile))
+//@   ensures [file.ProducerEnabled] opts.ProducerEnabled == (fileHas("producer-enabled") ? fileB("producer-enabled") : old(opts.ProducerEnabled))
+//@   ensures [file.MQName] opts.MQName == (fileHas("mq-name") ? fileS("mq-name") : old(opts.MQName))
+//@   ensures [file.MQConfigFile] opts.MQConfigFile == (fileHas("mq-config-file") ? fileS("mq-config-file") : old(opts.MQConfigFile))
 //@   modifies opts
 
 // flagSet: command line > configuration file > environment > built-in default, for every registered setting
